@@ -71,6 +71,10 @@ def mk_deref(e):
 
 
 def mk_field(base, name, of=""):
+    # the owner type is only kept for the analysed crate's own types (vocabulary);
+    # tuple / std fields are identified by name alone
+    if not of.startswith("cactusref::"):
+        of = ""
     if base[0] == "agg":
         for fname, fe in base[5]:
             if fname == name:
